@@ -15,6 +15,7 @@ def run(tier, acc):
     acc.assumptions = ["clvmr is the consensus evaluator", "Clvm.tla must agree with clvmr on every vector (SPEC-ERROR otherwise)"]
     n = 4 if tier == "quick" else 5
     cc.gen_and_replay(acc, "opt_clean", n, "opt", "clean", "C04")
+    cc.drive_and_validate(acc, 3000 if tier == 'quick' else 60000, 'C04')
     acc.exhaustive = True
 
 
